@@ -303,11 +303,13 @@ Qed.
 Definition wf_tbl (n : nat) (tbl : list (key * combo)) : Prop :=
   NoDup (map fst tbl) /\ Forall (wf_key n) (map fst tbl).
 
+(* :before / :after bodies only trace (they have no next method) *)
+Definition plain (b : body) : Prop := b_nmp b = false /\ b_calls b = [].
 Definition wf_op (n : nat) (o : op) : Prop :=
   match o with
-  | OpDef _ k _ => wf_key n k
+  | OpDef q k b => wf_key n k /\ match q with QBefore | QAfter => plain b | _ => True end
   | OpRemove _ k => True
-  | OpCall cs => List.length cs = n
+  | OpCall cs v => List.length cs = n
   end.
 
 Lemma tbl_update_wf n tbl k c : wf_key n k -> wf_tbl n tbl -> wf_tbl n (tbl_update tbl k c).
@@ -332,7 +334,7 @@ Qed.
 
 Lemma spec_step_wf n tbl o : wf_op n o -> wf_tbl n tbl -> wf_tbl n (spec_step tbl o).
 Proof.
-  intros Ho Ht. destruct o as [q k b|q k|cs]; cbn [spec_step]; [apply tbl_update_wf; assumption| |exact Ht].
+  intros Ho Ht. destruct o as [q k b|q k|cs v]; cbn [spec_step]; [apply tbl_update_wf; [exact (proj1 Ho)|exact Ht]| |exact Ht].
   destruct (alookup k tbl) as [c|] eqn:E; [|exact Ht]. destruct (get_qual c q); [|exact Ht].
   destruct (combo_is_empty _); [apply adelete_wf, Ht|]. apply tbl_update_wf; [|exact Ht]. eapply alookup_wf; eassumption.
 Qed.
@@ -341,19 +343,19 @@ Qed.
 
 Definition wf_cls (ct : ctable) (c : cls) : Prop := NoDup (hier_of ct c) /\ hd "t"%string (hier_of ct c) = c.
 
+(* every cached effective method is what buildCacheMeth computes from the present table *)
 Definition Inv (ct : ctable) (n : nat) (a : aux) : Prop :=
   dflt a = None /\ reqcnt a = n /\ wf_tbl n (methods a) /\
-  forall ck ks, alookup ck (cache a) = Some ks ->
-                ks = collect (methods a) [] (map (hier_of ct) ck) /\ ks <> [].
+  forall ck snap, alookup ck (cache a) = Some snap -> build (methods a) (map (hier_of ct) ck) = Some snap.
 
 Lemma Inv_init ct n : Inv ct n (new_aux n).
 Proof. repeat split; cbn; try constructor; discriminate. Qed.
 
 (* the implementation's semantics of a call with the cache and fast path erased *)
-Definition pure_call (ct : ctable) (tbl : list (key * combo)) (cs : list cls) : list event * result :=
-  match collect tbl [] (map (hier_of ct) cs) with
-  | [] => ([], RNoApplicable)
-  | ks => method_call (deref tbl ks)
+Definition pure_call (ct : ctable) (tbl : list (key * combo)) (cs : list cls) (v : argv) : list event * result :=
+  match build tbl (map (hier_of ct) cs) with
+  | None => ([], RNoApplicable)
+  | Some snap => method_call snap v
   end.
 
 Lemma add_method_spec a q k b : methods (add_method a q k b) = spec_step (methods a) (OpDef q k b).
@@ -377,21 +379,20 @@ Lemma spec_key_wf ct cs : Forall (wf_cls ct) cs -> spec_key (map (hier_of ct) cs
 Proof. unfold spec_key. induction 1 as [|c cs [_ Hc] _ IH]; cbn; [reflexivity|]. rewrite Hc. f_equal. exact IH. Qed.
 
 Lemma step_refines ct n a o :
-  1 <= n -> wf_op n o -> (match o with OpCall cs => Forall (wf_cls ct) cs | _ => True end) -> Inv ct n a ->
+  1 <= n -> wf_op n o -> (match o with OpCall cs _ => Forall (wf_cls ct) cs | _ => True end) -> Inv ct n a ->
   Inv ct n (fst (step ct a o)) /\
   methods (fst (step ct a o)) = spec_step (methods a) o /\
-  snd (step ct a o) = match o with OpCall cs => Some (pure_call ct (methods a) cs) | _ => None end.
+  snd (step ct a o) = match o with OpCall cs v => Some (pure_call ct (methods a) cs v) | _ => None end.
 Proof.
   intros Hn Ho Hc (Hd & Hr & Ht & Hcache).
   assert (HI : Inv ct n a) by (exact (conj Hd (conj Hr (conj Ht Hcache)))).
-  destruct o as [q k b|q k|cs]; cbn [step fst snd].
+  destruct o as [q k b|q k|cs v]; cbn [step fst snd].
   - assert (Ht' := spec_step_wf n _ (OpDef q k b) Ho Ht). rewrite <- add_method_spec in Ht'.
     split; [|split; [apply add_method_spec|reflexivity]].
     repeat split; try apply Ht'.
     + unfold add_method at 1. cbn [dflt]. rewrite Hr. apply update_default_none; [exact Hn|]. apply Ht'.
     + exact Hr.
-    + cbn in H. discriminate.
-    + cbn in H. discriminate.
+    + intros ck snap H. cbn in H. discriminate.
   - assert (Ht' := spec_step_wf n _ (OpRemove q k) Ho Ht). rewrite <- remove_method_spec in Ht'.
     split; [|split; [apply remove_method_spec|reflexivity]].
     unfold remove_method in *. destruct (alookup k (methods a)) as [c|] eqn:E; [|exact HI].
@@ -399,33 +400,27 @@ Proof.
     repeat split; try apply Ht'.
     + cbn [dflt]. rewrite Hr. apply update_default_none; [exact Hn|]. apply Ht'.
     + exact Hr.
-    + cbn in H. discriminate.
-    + cbn in H. discriminate.
+    + intros ck snap H. cbn in H. discriminate.
   - unfold call, pure_call. rewrite Hd. rewrite (spec_key_wf ct cs Hc).
-    destruct (alookup cs (cache a)) as [ks|] eqn:E.
-    + cbn [fst snd]. destruct (Hcache cs ks E) as [-> Hne]. split; [exact HI|split; [reflexivity|]].
-      destruct (collect (methods a) [] (map (hier_of ct) cs)); [congruence|reflexivity].
-    + destruct (collect (methods a) [] (map (hier_of ct) cs)) as [|k0 ks] eqn:Ec; cbn [fst snd].
+    destruct (alookup cs (cache a)) as [snap|] eqn:E.
+    + cbn [fst snd]. rewrite (Hcache cs snap E). split; [exact HI|split; reflexivity].
+    + destruct (build (methods a) (map (hier_of ct) cs)) as [snap|] eqn:Eb; cbn [fst snd].
+      * split; [|split; reflexivity]. repeat split; try assumption; cbn [dflt reqcnt methods cache] in *; try apply Ht.
+        intros ck snap' H. rewrite alookup_ainsert in H. destruct (key_eqb ck cs) eqn:Ek.
+        -- apply key_eqb_eq in Ek as ->. injection H as <-. exact Eb.
+        -- apply Hcache, H.
       * split; [exact HI|split; reflexivity].
-      * split; [|split; reflexivity]. repeat split; try assumption; cbn [dflt reqcnt methods cache] in *.
-        -- apply Ht. -- apply Ht.
-        -- rewrite alookup_ainsert in H. destruct (key_eqb ck cs) eqn:Ek.
-           ++ apply key_eqb_eq in Ek as ->. injection H as <-. symmetry; exact Ec.
-           ++ apply Hcache, H.
-        -- rewrite alookup_ainsert in H. destruct (key_eqb ck cs) eqn:Ek.
-           ++ injection H as <-. discriminate.
-           ++ apply (Hcache ck ks0), H.
 Qed.
 
 Fixpoint pure_run (ct : ctable) (tbl : list (key * combo)) (ops : list op) : list out :=
   match ops with
   | [] => []
-  | o :: ops' => (match o with OpCall cs => Some (pure_call ct tbl cs) | _ => None end)
+  | o :: ops' => (match o with OpCall cs v => Some (pure_call ct tbl cs v) | _ => None end)
                  :: pure_run ct (spec_step tbl o) ops'
   end.
 
 Definition wf_ops (ct : ctable) (n : nat) (ops : list op) : Prop :=
-  Forall (fun o => wf_op n o /\ match o with OpCall cs => Forall (wf_cls ct) cs | _ => True end) ops.
+  Forall (fun o => wf_op n o /\ match o with OpCall cs _ => Forall (wf_cls ct) cs | _ => True end) ops.
 
 (* Every history: the outputs are those of the cache-free, fast-path-free semantics on the
    method table defined at that moment *)
@@ -446,50 +441,67 @@ Qed.
 
 (* ---------- Method.Call against the effective method ---------- *)
 
-Definition wraps (cs : list combo) : list body := flat_map (fun c => opt_list (c_wrap c)) cs.
-Definition prims (cs : list combo) : list body := flat_map (fun c => opt_list (c_primary c)) cs.
-
-Lemma next_wrap_none cs : forall fuel from,
-  (forall j c, from <= j -> nth_error cs j = Some c -> c_wrap c = None) -> next_wrap cs from fuel = None.
+(* run_body depends on its continuation only through its values *)
+Lemma run_calls_ext v h n1 n2 : (forall v', n1 v' = n2 v') ->
+  forall calls last, run_calls v h n1 calls last = run_calls v h n2 calls last.
 Proof.
-  induction fuel as [|fuel IH]; intros from H; cbn; [reflexivity|].
-  destruct (nth_error cs from) as [c|] eqn:E; [|reflexivity].
-  rewrite (H from c (le_n _) E). apply IH. intros j c' Hj. apply H. lia.
+  intros He. induction calls as [|f rest IH]; intros last; cbn [run_calls]; [reflexivity|].
+  destruct h; [|reflexivity]. rewrite He. destruct (n2 (xor_args v f)) as [tr r].
+  destruct (is_err r); [reflexivity|]. rewrite IH. reflexivity.
+Qed.
+Lemma run_body_ext ends b v h n1 n2 : (forall v', n1 v' = n2 v') ->
+  run_body ends b v h n1 = run_body ends b v h n2.
+Proof. intros He. unfold run_body. rewrite (run_calls_ext v h n1 n2 He). reflexivity. Qed.
+
+Definition sel_list (sel : combo -> option body) (l : list combo) : list body :=
+  flat_map (fun c => opt_list (sel c)) l.
+
+Lemma skipn_skipn' {A} (l : list A) : forall a b, skipn a (skipn b l) = skipn (a + b) l.
+Proof.
+  induction l as [|x l IH]; intros a b; [rewrite !skipn_nil; reflexivity|].
+  destruct b as [|b]; [rewrite Nat.add_0_r; reflexivity|].
+  rewrite Nat.add_succ_r. cbn [skipn]. apply IH.
 Qed.
 
-Lemma next_wrap_some cs i b c : forall fuel from,
-  from <= i -> i - from < fuel -> nth_error cs i = Some c -> c_wrap c = Some b ->
-  (forall j c', from <= j < i -> nth_error cs j = Some c' -> c_wrap c' = None) ->
-  next_wrap cs from fuel = Some i.
+Lemma find_idx_none sel l : forall i, find_idx sel l i = None <-> sel_list sel l = [].
 Proof.
-  induction fuel as [|fuel IH]; intros from Hle Hf Hi Hw Hno; [lia|]. cbn.
-  destruct (Nat.eq_dec from i) as [->|Hne].
-  - rewrite Hi, Hw. reflexivity.
-  - destruct (nth_error cs from) as [c'|] eqn:E.
-    + rewrite (Hno from c'); [|lia|exact E]. apply IH; try lia; try assumption. intros j c2 Hj. apply Hno. lia.
-    + exfalso. apply nth_error_None in E. assert (i < List.length cs) by (apply nth_error_Some; congruence). lia.
+  unfold sel_list. induction l as [|c l IH]; intros i; cbn [find_idx flat_map]; [tauto|].
+  destruct (sel c); cbn [opt_list app]; [split; discriminate|apply IH].
+Qed.
+Lemma find_idx_some sel l : forall i j b, find_idx sel l i = Some (j, b) ->
+  exists d, j = i + d /\ d < List.length l /\ sel_list sel l = b :: sel_list sel (skipn (S d) l).
+Proof.
+  unfold sel_list. induction l as [|c l IH]; intros i j b; cbn [find_idx flat_map]; [discriminate|].
+  destruct (sel c) as [b0|] eqn:E; cbn [opt_list app].
+  - intros H. injection H as <- <-. exists 0. cbn. split; [lia|split; [lia|reflexivity]].
+  - intros H. destruct (IH _ _ _ H) as (d & -> & Hd & Hs). exists (S d). cbn [List.length].
+    split; [lia|split; [lia|exact Hs]].
 Qed.
 
-Lemma wraps_app l1 l2 : wraps (l1 ++ l2) = wraps l1 ++ wraps l2.
-Proof. unfold wraps. apply flat_map_app. Qed.
-
-Lemma wraps_nil_nth cs : wraps cs = [] -> forall j c, nth_error cs j = Some c -> c_wrap c = None.
+Lemma find_from_none sel cs i : find_from sel cs i = None <-> sel_list sel (skipn i cs) = [].
+Proof. apply find_idx_none. Qed.
+Lemma find_from_some sel cs i j b : find_from sel cs i = Some (j, b) ->
+  i <= j /\ j < List.length cs /\ sel_list sel (skipn i cs) = b :: sel_list sel (skipn (S j) cs).
 Proof.
-  induction cs as [|c0 cs IH]; intros H j c Hj; [destruct j; discriminate|].
-  unfold wraps in H; cbn in H. apply app_eq_nil in H as [H0 H1].
-  destruct j as [|j]; cbn in Hj; [injection Hj as <-; destruct (c_wrap c0); [discriminate|reflexivity]|].
-  eapply IH; eassumption.
+  intros H. apply find_idx_some in H as (d & -> & Hd & Hs). rewrite skipn_length in Hd.
+  split; [lia|split; [lia|]]. rewrite Hs, skipn_skipn'. replace (S d + i) with (S (i + d)) by lia. reflexivity.
+Qed.
+Lemma find_from_is_some sel cs i : is_some (find_from sel cs i) = negb (is_nil (sel_list sel (skipn i cs))).
+Proof.
+  destruct (find_from sel cs i) as [[j b]|] eqn:E.
+  - apply find_from_some in E as (_ & _ & ->). reflexivity.
+  - apply find_from_none in E as ->. reflexivity.
 Qed.
 
-(* a combination list with exactly one :around splits around it *)
-Lemma wraps_single cs b : wraps cs = [b] ->
-  exists pre c post, cs = pre ++ c :: post /\ c_wrap c = Some b /\ wraps pre = [] /\ wraps post = [].
+(* primaryCall(i) = the chain of the primaries from combination i on *)
+Lemma run_prim_spec cs : forall fuel i v, List.length cs - i < fuel ->
+  run_prim fuel cs i v = spec_prims (sel_list c_primary (skipn i cs)) v.
 Proof.
-  induction cs as [|c0 cs IH]; intros H; [discriminate|].
-  unfold wraps in H; cbn in H. destruct (c_wrap c0) as [b0|] eqn:E; cbn in H.
-  - injection H as -> H. exists [], c0, cs. repeat split; auto.
-  - destruct (IH H) as (pre & c & post & -> & Hc & Hp & Hq). exists (c0 :: pre), c, post. repeat split; auto.
-    unfold wraps; cbn. rewrite E. exact Hp.
+  induction fuel as [|fuel IH]; intros i v Hf; [lia|]. cbn [run_prim].
+  destruct (find_from c_primary cs i) as [[j b]|] eqn:E.
+  - destruct (find_from_some _ _ _ _ _ E) as (Hij & Hj & ->). cbn [spec_prims].
+    rewrite find_from_is_some. apply run_body_ext. intros v'. apply IH. lia.
+  - apply find_from_none in E as ->. reflexivity.
 Qed.
 
 Lemma flat_map_rev_opt {A B} (f : A -> option B) l :
@@ -498,82 +510,91 @@ Proof.
   induction l as [|x l IH]; cbn; [reflexivity|]. rewrite flat_map_app, IH, rev_app_distr. cbn. rewrite app_nil_r.
   destruct (f x); reflexivity.
 Qed.
+Lemma flat_map_opt_ev (g : combo -> option body) v l :
+  flat_map (fun c => opt_ev (g c) v) l = evs (flat_map (fun c => opt_list (g c)) l) v.
+Proof. unfold evs. induction l as [|c l IH]; cbn; [reflexivity|]. rewrite map_app, IH. destruct (g c); reflexivity. Qed.
 
-Lemma flat_map_opt_ev (g : combo -> option body) l :
-  flat_map (fun c => opt_ev (g c)) l = map (fun b => Ev (b_id b)) (flat_map (fun c => opt_list (g c)) l).
-Proof. induction l as [|c l IH]; cbn; [reflexivity|]. rewrite map_app, IH. destruct (g c); reflexivity. Qed.
-
-(* InnerCall = befores ++ primary ++ reversed afters *)
-Lemma inner_call_spec cs p ps : prims cs = p :: ps ->
-  inner_call cs =
-    (map (fun b => Ev (b_id b)) (flat_map (fun c => opt_list (c_before c)) cs) ++ [Ev (b_id p)] ++
-     map (fun b => Ev (b_id b)) (rev (flat_map (fun c => opt_list (c_after c)) cs)), RVal (b_id p)).
+(* InnerCall = befores ++ primary chain ++ reversed afters *)
+Lemma inner_call_spec cs fuel v : List.length cs < fuel ->
+  inner_call fuel cs v = spec_inner (befores cs) (prims cs) (afters cs) v.
 Proof.
-  intros Hp. unfold inner_call.
-  replace (flat_map (fun c => match c_primary c with Some b => [b] | None => [] end) cs) with (prims cs) by reflexivity.
-  rewrite Hp. cbn [fst snd]. rewrite !flat_map_opt_ev, flat_map_rev_opt. reflexivity.
+  intros Hf. unfold inner_call, spec_inner. rewrite run_prim_spec by lia. cbn [skipn].
+  change (sel_list c_primary cs) with (prims cs). rewrite !flat_map_opt_ev, flat_map_rev_opt.
+  destruct (spec_prims (prims cs) v) as [tr r]. reflexivity.
 Qed.
 
-Lemma has_inner_prims cs p ps : prims cs = p :: ps -> has_inner cs = true.
+Lemma prims_find cs : prims cs <> [] -> is_some (find_from c_primary cs 0) = true.
 Proof.
-  induction cs as [|c cs IH]; [discriminate|]. unfold prims, has_inner. cbn [flat_map existsb].
-  destruct (c_primary c); cbn [opt_list app]; [reflexivity|].
-  intros H. apply orb_true_iff. right. apply IH, H.
+  intros H. rewrite find_from_is_some. cbn [skipn]. change (sel_list c_primary cs) with (prims cs). destruct (prims cs); [congruence|reflexivity].
 Qed.
 
-(* the guard: at most one applicable :around, and an applicable primary *)
-Definition guard_cs (cs : list combo) : Prop := List.length (wraps cs) <= 1 /\ prims cs <> [].
-
-Theorem method_call_effective cs : guard_cs cs -> method_call cs = effective cs.
+(* the Wrap of combination i = the chain of the :around methods from i on, ending in InnerCall *)
+Lemma run_wrap_spec cs : prims cs <> [] -> forall fuel i b v, List.length cs - i <= fuel -> i < List.length cs ->
+  run_wrap fuel cs i b v =
+  spec_arounds (b :: sel_list c_wrap (skipn (S i) cs)) (spec_inner (befores cs) (prims cs) (afters cs)) v.
 Proof.
-  intros [Hw Hp]. destruct (prims cs) as [|p ps] eqn:Ep; [congruence|]. clear Hp.
-  unfold effective. fold (prims cs). fold (wraps cs). rewrite Ep.
-  rewrite <- (inner_call_spec cs p ps Ep).
-  unfold method_call. destruct (wraps cs) as [|b [|b2 ws]] eqn:Ew; [| |cbn in Hw; lia].
-  - rewrite next_wrap_none; [reflexivity|]. intros j c _. apply wraps_nil_nth, Ew.
-  - destruct (wraps_single cs b Ew) as (pre & c & post & -> & Hc & Hpre & Hpost).
-    set (cs := pre ++ c :: post) in *. set (i := List.length pre).
-    assert (Hi : nth_error cs i = Some c) by (unfold cs, i; rewrite nth_error_app2 by lia; rewrite Nat.sub_diag; reflexivity).
-    assert (Hbefore : forall j c', j < i -> nth_error cs j = Some c' -> c_wrap c' = None).
-    { intros j c' Hj Hn. unfold cs in Hn. rewrite nth_error_app1 in Hn by exact Hj. eapply (wraps_nil_nth pre Hpre); eassumption. }
-    assert (Hafter : forall j c', S i <= j -> nth_error cs j = Some c' -> c_wrap c' = None).
-    { intros j c' Hj Hn. unfold cs in Hn. rewrite nth_error_app2 in Hn by (fold i; lia). fold i in Hn.
-      destruct (j - i) as [|d] eqn:Ed; [lia|]. cbn in Hn. eapply (wraps_nil_nth post Hpost); eassumption. }
-    assert (Hlen : i < List.length cs) by (apply nth_error_Some; congruence).
-    rewrite (next_wrap_some cs i b c); [|lia|lia|exact Hi|exact Hc|intros j c' Hj; apply Hbefore; lia].
-    cbn [run_wrap]. rewrite Hi, Hc. cbn [spec_wrap].
-    destruct (b_next b); [|reflexivity].
-    rewrite (next_wrap_none cs (List.length cs) (S i)) by exact Hafter.
-    rewrite (has_inner_prims cs p ps Ep).
-    rewrite next_wrap_none.
-    + rewrite (inner_call_spec cs p ps Ep). reflexivity.
-    + intros j c' Hj. apply Hafter. lia.
+  intros Hp. induction fuel as [|fuel IH]; intros i b v Hf Hi; [lia|]. cbn [run_wrap spec_arounds].
+  rewrite (prims_find cs Hp), orb_true_r. apply run_body_ext. intros v'.
+  destruct (find_from c_wrap cs (S i)) as [[j b']|] eqn:E.
+  - destruct (find_from_some _ _ _ _ _ E) as (Hij & Hj & ->). apply IH; lia.
+  - apply find_from_none in E as ->. cbn [spec_arounds]. apply inner_call_spec. lia.
+Qed.
+
+Theorem method_call_effective cs v : prims cs <> [] -> method_call cs v = effective cs v.
+Proof.
+  intros Hp. unfold method_call, effective. destruct (prims cs) as [|p ps] eqn:Ep; [congruence|]. rewrite <- Ep.
+  destruct (find_from c_wrap cs 0) as [[i b]|] eqn:E.
+  - destruct (find_from_some _ _ _ _ _ E) as (_ & Hi & Hs). cbn [skipn] in Hs. change (sel_list c_wrap cs) with (wraps cs) in Hs. rewrite Hs.
+    apply run_wrap_spec; [congruence|lia|exact Hi].
+  - apply find_from_none in E. cbn [skipn] in E. change (sel_list c_wrap cs) with (wraps cs) in E. rewrite E. cbn [spec_arounds].
+    apply inner_call_spec. lia.
+Qed.
+
+Lemma callable_false cs : callable cs = false -> prims cs = [] /\ wraps cs = [].
+Proof.
+  unfold callable, prims, wraps. induction cs as [|c cs IH]; cbn [existsb flat_map]; [split; reflexivity|].
+  intros H. apply orb_false_iff in H as [H1 H2]. apply orb_false_iff in H1 as [Hp Hw].
+  destruct (IH H2) as [-> ->]. destruct (c_primary c); [discriminate|]. destruct (c_wrap c); [discriminate|].
+  split; reflexivity.
+Qed.
+Lemma callable_true cs : callable cs = true -> prims cs <> [] \/ wraps cs <> [].
+Proof.
+  unfold callable, prims, wraps. induction cs as [|c cs IH]; cbn [existsb flat_map]; [discriminate|].
+  intros H. apply orb_true_iff in H as [H|H].
+  - apply orb_true_iff in H as [H|H]; [left; destruct (c_primary c); [discriminate|discriminate]
+                                     |right; destruct (c_wrap c); [discriminate|discriminate]].
+  - destruct (IH H) as [H'|H']; [left|right]; intros E; apply app_eq_nil in E as [_ E]; contradiction.
 Qed.
 
 (* ---------- dispatch equals the specification on the guard ---------- *)
 
+(* the guard that is left after the repairs: when an :around method is applicable, a primary
+   method is applicable too *)
+Definition guard_cs (cs : list combo) : Prop := prims cs <> [] \/ wraps cs = [].
 Definition guard (ct : ctable) (tbl : list (key * combo)) (cs : list cls) : Prop :=
-  let ks := dispatch (map (hier_of ct) cs) tbl in ks = [] \/ guard_cs (deref tbl ks).
-
+  guard_cs (deref tbl (dispatch (map (hier_of ct) cs) tbl)).
 Definition guardb (ct : ctable) (tbl : list (key * combo)) (cs : list cls) : bool :=
-  match dispatch (map (hier_of ct) cs) tbl with
-  | [] => true
-  | ks => let c := deref tbl ks in Nat.leb (List.length (wraps c)) 1 && negb (match prims c with [] => true | _ => false end)
-  end.
+  let c := deref tbl (dispatch (map (hier_of ct) cs) tbl) in negb (is_nil (prims c)) || is_nil (wraps c).
 Lemma guardb_spec ct tbl cs : guardb ct tbl cs = true -> guard ct tbl cs.
 Proof.
-  unfold guardb, guard. destruct (dispatch _ tbl) as [|k ks]; [left; reflexivity|].
-  rewrite andb_true_iff, Nat.leb_le. intros [H1 H2]. right. split; [exact H1|].
-  destruct (prims _); [discriminate|discriminate].
+  unfold guardb, guard, guard_cs. intros H. apply orb_true_iff in H as [H|H].
+  - left. destruct (prims _); [discriminate|discriminate].
+  - right. destruct (wraps _); [reflexivity|discriminate].
 Qed.
 
-Theorem pure_call_eq_spec ct n tbl cs :
-  wf_tbl n tbl -> Forall (wf_cls ct) cs -> guard ct tbl cs -> pure_call ct tbl cs = spec_call ct tbl cs.
+Theorem pure_call_eq_spec ct n tbl cs v :
+  wf_tbl n tbl -> Forall (wf_cls ct) cs -> guard ct tbl cs -> pure_call ct tbl cs v = spec_call ct tbl cs v.
 Proof.
-  intros [Hnd _] Hc Hg. unfold pure_call, spec_call, guard in *.
+  intros [Hnd _] Hc Hg. unfold pure_call, spec_call, build, guard in *.
   rewrite collect_eq_dispatch; [|exact Hnd|].
-  - destruct (dispatch _ tbl) as [|k ks]; [reflexivity|]. destruct Hg as [Hg|Hg]; [discriminate|].
-    apply method_call_effective, Hg.
+  - set (ks := dispatch (map (hier_of ct) cs) tbl) in *.
+    destruct (callable (deref tbl ks)) eqn:Ec.
+    + assert (Hp : prims (deref tbl ks) <> []).
+      { destruct Hg as [Hg|Hg]; [exact Hg|]. destruct (callable_true _ Ec) as [H|H]; [exact H|contradiction]. }
+      rewrite method_call_effective by exact Hp.
+      destruct ks as [|k ks]; [exfalso; apply Hp; reflexivity|reflexivity].
+    + destruct (callable_false _ Ec) as [Hp _]. destruct ks as [|k ks]; [reflexivity|].
+      unfold effective. rewrite Hp. reflexivity.
   - apply Forall_forall. intros h Hh. apply in_map_iff in Hh as (c & <- & Hcin).
     rewrite Forall_forall in Hc. apply Hc, Hcin.
 Qed.
@@ -582,7 +603,7 @@ Qed.
 Fixpoint guard_ops (ct : ctable) (tbl : list (key * combo)) (ops : list op) : Prop :=
   match ops with
   | [] => True
-  | o :: ops' => (match o with OpCall cs => guard ct tbl cs | _ => True end) /\ guard_ops ct (spec_step tbl o) ops'
+  | o :: ops' => (match o with OpCall cs _ => guard ct tbl cs | _ => True end) /\ guard_ops ct (spec_step tbl o) ops'
   end.
 
 Lemma pure_run_eq_spec ct n ops : forall tbl,
@@ -591,7 +612,7 @@ Proof.
   induction ops as [|o ops IH]; intros tbl Ht Hwf Hg; [reflexivity|].
   inversion Hwf as [|? ? [Ho Hc] Hwf']; subst. destruct Hg as [Hg Hg'].
   assert (Ht' := spec_step_wf n tbl o Ho Ht).
-  destruct o as [q k b|q k|cs]; cbn [pure_run spec_run]; f_equal; try (apply IH; assumption).
+  destruct o as [q k b|q k|cs v]; cbn [pure_run spec_run]; f_equal; try (apply IH; assumption).
   f_equal. eapply pure_call_eq_spec; eassumption.
 Qed.
 
@@ -603,72 +624,136 @@ Proof.
   rewrite H. cbn [methods new_aux]. apply (pure_run_eq_spec ct n); [split; constructor|exact Hwf|exact Hg].
 Qed.
 
-(* ---------- a law of the specification: the standard method combination order ---------- *)
-Lemma spec_wrap_all_next arounds tr r :
-  forallb b_next arounds = true ->
-  spec_wrap arounds (tr, r) =
-    (map (fun b => Ev (b_id b)) arounds ++ tr ++ map (fun b => EvEnd (b_id b)) (rev arounds), r).
+(* ---------- laws of the specification ---------- *)
+
+(* body shapes: [once]: one call-next-method with the arguments received; [plain] is above *)
+Definition once (b : body) : Prop := b_nmp b = false /\ b_calls b = [[]].
+
+Lemma xor_args_nil v : xor_args v [] = v.
+Proof. destruct v; reflexivity. Qed.
+
+Lemma spec_arounds_all_once arounds inner v tr r :
+  Forall once arounds -> inner v = (tr, r) -> is_err r = false ->
+  spec_arounds arounds inner v =
+    (evs arounds v ++ tr ++ map (fun b => EvEnd (b_id b)) (rev arounds), r).
 Proof.
-  induction arounds as [|b ar IH]; cbn [spec_wrap forallb map rev app]; intros H.
-  - rewrite app_nil_r. reflexivity.
-  - apply andb_true_iff in H as [Hb Har]. rewrite Hb, (IH Har). cbn [app]. f_equal. f_equal.
-    rewrite map_app, <- !app_assoc. reflexivity.
+  intros Ho Hi He. induction Ho as [|b ar [Hn Hc] _ IH]; cbn [spec_arounds evs map rev app].
+  - rewrite app_nil_r. exact Hi.
+  - unfold run_body. rewrite Hc, Hn. cbn [run_calls]. rewrite xor_args_nil, IH, He. cbn [is_err app].
+    rewrite He. f_equal. cbn [app]. f_equal. unfold evs. rewrite map_app, <- !app_assoc. reflexivity.
 Qed.
 
-Theorem effective_order cs p ps :
-  prims cs = p :: ps -> forallb b_next (wraps cs) = true ->
-  effective cs =
-    (map (fun b => Ev (b_id b)) (wraps cs) ++
-     (map (fun b => Ev (b_id b)) (flat_map (fun c => opt_list (c_before c)) cs) ++ [Ev (b_id p)] ++
-      map (fun b => Ev (b_id b)) (rev (flat_map (fun c => opt_list (c_after c)) cs))) ++
+(* (a) the standard order: every :around calls call-next-method once, the most specific primary
+   does not: arounds, befores, primary, afters in reverse, the arounds end in reverse *)
+Theorem effective_order cs p ps v :
+  prims cs = p :: ps -> plain p -> Forall once (wraps cs) ->
+  effective cs v =
+    (evs (wraps cs) v ++
+     (evs (befores cs) v ++ [Ev (b_id p) v] ++ evs (rev (afters cs)) v) ++
      map (fun b => EvEnd (b_id b)) (rev (wraps cs)), RVal (b_id p)).
 Proof.
-  intros Hp Hn. unfold effective. fold (prims cs). fold (wraps cs). rewrite Hp. apply spec_wrap_all_next, Hn.
+  intros Hp [Hn Hc] Ho. unfold effective. rewrite Hp.
+  apply spec_arounds_all_once; [exact Ho| |reflexivity].
+  unfold spec_inner. cbn [spec_prims]. unfold run_body, prim_ends. rewrite Hc, Hn. cbn. reflexivity.
 Qed.
 
-(* ---------- refutations outside the guard (the faithful model M against S) ---------- *)
+(* (b) an :around method that does not call call-next-method: nothing else runs *)
+Theorem effective_around_declines cs a rest v :
+  prims cs <> [] -> wraps cs = a :: rest -> b_calls a = [] ->
+  effective cs v = (Ev (b_id a) v :: (if b_nmp a then [EvNmp true] else []) ++ [EvEnd (b_id a)], RVal (b_id a)).
+Proof.
+  intros Hp Hw Hc. unfold effective. destruct (prims cs); [congruence|]. rewrite Hw. cbn [spec_arounds].
+  unfold run_body. rewrite Hc. cbn. reflexivity.
+Qed.
+
+(* (c) an :around method with two call-next-method forms, the second with changed arguments:
+   the rest of the effective method runs twice, the second time with the changed arguments, and
+   the value is that of the second run *)
+Theorem effective_around_twice cs a rest f v tr1 r1 tr2 r2 :
+  prims cs <> [] -> wraps cs = a :: rest -> b_nmp a = false -> b_calls a = [[]; f] ->
+  let inner := spec_inner (befores cs) (prims cs) (afters cs) in
+  spec_arounds rest inner v = (tr1, r1) -> is_err r1 = false ->
+  spec_arounds rest inner (xor_args v f) = (tr2, r2) -> is_err r2 = false ->
+  effective cs v = (Ev (b_id a) v :: tr1 ++ tr2 ++ [EvEnd (b_id a)], r2).
+Proof.
+  intros Hp Hw Hn Hc inner H1 E1 H2 E2. unfold effective. destruct (prims cs); [congruence|]. rewrite Hw. cbn [spec_arounds].
+  unfold run_body. rewrite Hc, Hn. cbn [run_calls]. rewrite xor_args_nil. fold inner. rewrite H1, E1, H2, E2.
+  cbn [app]. rewrite E2. rewrite app_nil_r, <- app_assoc. reflexivity.
+Qed.
+
+(* (d) call-next-method in a primary method runs the next most specific primary; in the least
+   specific one it signals no-next-method, which unwinds (no :after method runs) *)
+Theorem effective_primary_chain cs p1 p2 ps v :
+  wraps cs = [] -> prims cs = p1 :: p2 :: ps -> once p1 -> plain p2 ->
+  effective cs v =
+    (evs (befores cs) v ++ [Ev (b_id p1) v; Ev (b_id p2) v; EvEnd (b_id p1)] ++ evs (rev (afters cs)) v, RVal (b_id p2)).
+Proof.
+  intros Hw Hp [Hn1 Hc1] [Hn2 Hc2]. unfold effective. rewrite Hp, Hw. cbn [spec_arounds]. unfold spec_inner.
+  cbn [spec_prims]. unfold run_body, prim_ends. rewrite Hc1, Hn1, Hc2, Hn2. cbn. rewrite xor_args_nil. reflexivity.
+Qed.
+Theorem effective_primary_no_next cs p f v :
+  wraps cs = [] -> prims cs = [p] -> b_calls p = [f] ->
+  effective cs v = (evs (befores cs) v ++ Ev (b_id p) v :: (if b_nmp p then [EvNmp false] else []), RNoNext).
+Proof.
+  intros Hw Hp Hc. unfold effective. rewrite Hp, Hw. cbn [spec_arounds]. unfold spec_inner.
+  cbn [spec_prims]. unfold run_body. rewrite Hc. cbn. rewrite app_nil_r. reflexivity.
+Qed.
+
+(* ---------- the clause of the guard that is left: a refutation ---------- *)
 
 Definition ct_num : ctable :=
   [("fixnum", ["fixnum"; "integer"; "rational"; "real"; "number"; "t"]);
    ("ratio", ["ratio"; "rational"; "real"; "number"; "t"])]%string.
-Definition B (n : N) := {| b_id := n; b_next := true |}.
+Definition B (n : N) := {| b_id := n; b_nmp := false; b_calls := [] |}.       (* plain *)
+Definition B1 (n : N) := {| b_id := n; b_nmp := false; b_calls := [[]] |}.    (* once *)
 
-(* two applicable :around methods: the less specific one is skipped *)
+(* an applicable :around method and no applicable primary: slip runs the :around method (its
+   own tests require that) and call-next-method signals no-next-method; the language signals an
+   error without running anything *)
+Definition ops_around_only : list op := [OpDef QAround ["t"] (B1 1); OpCall ["fixnum"] [false]]%string.
+Lemma around_without_primary_refuted :
+  wf_ops ct_num 1 ops_around_only /\
+  snd (run ct_num (new_aux 1) ops_around_only) = [None; Some ([Ev 1 [false]], RNoNext)]%N /\
+  spec_run ct_num [] ops_around_only = [None; Some ([], RNoApplicable)].
+Proof.
+  split; [|split].
+  - repeat constructor; cbn; try discriminate; intuition discriminate.
+  - vm_compute. reflexivity.
+  - vm_compute. reflexivity.
+Qed.
+
+(* the repaired cases now agree with S (they were the witnesses of the former guard clauses) *)
 Definition ops_two_arounds : list op :=
-  [OpDef QPrimary ["t"] (B 1); OpDef QAround ["fixnum"] (B 2); OpDef QAround ["integer"] (B 3);
-   OpCall ["fixnum"]]%string.
-Lemma second_around_skipped_refuted :
-  wf_ops ct_num 1 ops_two_arounds /\
-  snd (run ct_num (new_aux 1) ops_two_arounds) <> spec_run ct_num [] ops_two_arounds.
-Proof.
-  split.
-  - repeat constructor; cbn; try discriminate; intuition discriminate.
-  - vm_compute. discriminate.
-Qed.
+  [OpDef QPrimary ["t"] (B 1); OpDef QAround ["fixnum"] (B1 2); OpDef QAround ["integer"] (B1 3);
+   OpDef QAround ["real"] (B1 4); OpCall ["fixnum"] [false]]%string.
+Definition ops_no_primary : list op := [OpDef QBefore ["t"] (B 1); OpCall ["fixnum"] [false]]%string.
+Definition ops_next_in_primary : list op :=
+  [OpDef QPrimary ["integer"] (B 1); OpDef QPrimary ["fixnum"] (B1 2); OpCall ["fixnum"] [false]]%string.
+Lemma repaired_cases :
+  snd (run ct_num (new_aux 1) ops_two_arounds) = spec_run ct_num [] ops_two_arounds /\
+  nth 4 (snd (run ct_num (new_aux 1) ops_two_arounds)) None =
+    Some ([Ev 2 [false]; Ev 3 [false]; Ev 4 [false]; Ev 1 [false]; EvEnd 4; EvEnd 3; EvEnd 2], RVal 1)%N /\
+  snd (run ct_num (new_aux 1) ops_no_primary) = [None; Some ([], RNoApplicable)] /\
+  snd (run ct_num (new_aux 1) ops_no_primary) = spec_run ct_num [] ops_no_primary /\
+  snd (run ct_num (new_aux 1) ops_next_in_primary) = [None; None; Some ([Ev 2 [false]; Ev 1 [false]; EvEnd 2], RVal 1)]%N /\
+  snd (run ct_num (new_aux 1) ops_next_in_primary) = spec_run ct_num [] ops_next_in_primary.
+Proof. vm_compute. repeat split; reflexivity. Qed.
 
-(* applicable daemons but no applicable primary: M runs them and returns nil, S signals an error *)
-Definition ops_no_primary : list op := [OpDef QBefore ["t"] (B 1); OpCall ["fixnum"]]%string.
-Lemma no_primary_refuted :
-  wf_ops ct_num 1 ops_no_primary /\
-  snd (run ct_num (new_aux 1) ops_no_primary) <> spec_run ct_num [] ops_no_primary.
-Proof.
-  split.
-  - repeat constructor; cbn; try discriminate; intuition discriminate.
-  - vm_compute. discriminate.
-Qed.
-
-(* non-vacuity: a history inside the guard that exercises every qualifier, replacement, removal and
-   a cached call *)
+(* non-vacuity: a history inside the guard that exercises every qualifier, replacement, removal,
+   a cached call, two :around methods, call-next-method twice with changed arguments,
+   next-method-p and call-next-method in a primary *)
 Definition ops_example : list op :=
-  [OpDef QPrimary ["t"; "t"] (B 1); OpDef QPrimary ["integer"; "t"] (B 2); OpDef QBefore ["fixnum"; "rational"] (B 3);
-   OpDef QAfter ["t"; "ratio"] (B 4); OpDef QAround ["rational"; "t"] (B 5);
-   OpCall ["fixnum"; "ratio"]; OpCall ["fixnum"; "ratio"];
-   OpDef QPrimary ["fixnum"; "ratio"] (B 6); OpCall ["fixnum"; "ratio"];
-   OpRemove QPrimary ["fixnum"; "ratio"]; OpRemove QAround ["rational"; "t"]; OpCall ["fixnum"; "ratio"];
-   OpCall ["ratio"; "fixnum"]]%string.
+  [OpDef QPrimary ["t"; "t"] (B 1); OpDef QPrimary ["integer"; "t"] {| b_id := 2%N; b_nmp := true; b_calls := [[]] |};
+   OpDef QBefore ["fixnum"; "rational"] (B 3);
+   OpDef QAfter ["t"; "ratio"] (B 4); OpDef QAround ["rational"; "t"] {| b_id := 5%N; b_nmp := true; b_calls := [[]; [true; false]] |};
+   OpDef QAround ["t"; "t"] (B1 7);
+   OpCall ["fixnum"; "ratio"] [false; false]; OpCall ["fixnum"; "ratio"] [false; true];
+   OpDef QPrimary ["fixnum"; "ratio"] (B 6); OpCall ["fixnum"; "ratio"] [false; false];
+   OpRemove QPrimary ["fixnum"; "ratio"]; OpRemove QAround ["rational"; "t"]; OpCall ["fixnum"; "ratio"] [false; false];
+   OpCall ["ratio"; "fixnum"] [false; false]]%string.
 Lemma guardb_ops_sound ct : forall ops tbl,
   (fix go tbl ops := match ops with [] => true
-     | o :: ops' => (match o with OpCall cs => guardb ct tbl cs | _ => true end) && go (spec_step tbl o) ops' end) tbl ops = true ->
+     | o :: ops' => (match o with OpCall cs _ => guardb ct tbl cs | _ => true end) && go (spec_step tbl o) ops' end) tbl ops = true ->
   guard_ops ct tbl ops.
 Proof.
   induction ops as [|o ops IH]; intros tbl H; [exact I|]. apply andb_true_iff in H as [H1 H2]. split; [|apply IH, H2].
@@ -677,10 +762,23 @@ Qed.
 Example example_in_guard :
   wf_ops ct_num 2 ops_example /\ guard_ops ct_num [] ops_example /\
   snd (run ct_num (new_aux 2) ops_example) =
-    [None; None; None; None; None;
-     Some ([Ev 5; Ev 3; Ev 2; Ev 4; EvEnd 5], RVal 2); Some ([Ev 5; Ev 3; Ev 2; Ev 4; EvEnd 5], RVal 2);
-     None; Some ([Ev 5; Ev 3; Ev 6; Ev 4; EvEnd 5], RVal 6);
-     None; None; Some ([Ev 3; Ev 2; Ev 4], RVal 2); Some ([Ev 1], RVal 1)]%N.
+    [None; None; None; None; None; None;
+     Some ([Ev 5 [false; false]; EvNmp true;
+            Ev 7 [false; false]; Ev 3 [false; false]; Ev 2 [false; false]; EvNmp true; Ev 1 [false; false]; EvEnd 2; Ev 4 [false; false]; EvEnd 7;
+            Ev 7 [true; false]; Ev 3 [true; false]; Ev 2 [true; false]; EvNmp true; Ev 1 [true; false]; EvEnd 2; Ev 4 [true; false]; EvEnd 7;
+            EvEnd 5], RVal 1);
+     Some ([Ev 5 [false; true]; EvNmp true;
+            Ev 7 [false; true]; Ev 3 [false; true]; Ev 2 [false; true]; EvNmp true; Ev 1 [false; true]; EvEnd 2; Ev 4 [false; true]; EvEnd 7;
+            Ev 7 [true; true]; Ev 3 [true; true]; Ev 2 [true; true]; EvNmp true; Ev 1 [true; true]; EvEnd 2; Ev 4 [true; true]; EvEnd 7;
+            EvEnd 5], RVal 1);
+     None;
+     Some ([Ev 5 [false; false]; EvNmp true;
+            Ev 7 [false; false]; Ev 3 [false; false]; Ev 6 [false; false]; Ev 4 [false; false]; EvEnd 7;
+            Ev 7 [true; false]; Ev 3 [true; false]; Ev 6 [true; false]; Ev 4 [true; false]; EvEnd 7;
+            EvEnd 5], RVal 6);
+     None; None;
+     Some ([Ev 7 [false; false]; Ev 3 [false; false]; Ev 2 [false; false]; EvNmp true; Ev 1 [false; false]; EvEnd 2; Ev 4 [false; false]; EvEnd 7], RVal 1);
+     Some ([Ev 7 [false; false]; Ev 1 [false; false]; EvEnd 7], RVal 1)]%N.
 Proof.
   split; [|split].
   - repeat constructor; cbn; try discriminate; intuition discriminate.
